@@ -61,3 +61,34 @@ Print Assumptions C06_skeleton_refuted_by_whatwg_behaviour.
 Example C06_adoption_tree_has_skeleton :
   skeleton_ok (run_calls init adoption_trace) = true /\ Skeleton (run_calls init adoption_trace).
 Proof. exact adoption_tree_has_skeleton. Qed.
+
+(* ------------------------------------------------------------------ the html tree-builder model *)
+(* PROVED FOR ALL INPUTS over the executable model coq/Tree (tied to html5ever by ./check C02), for the abstract
+   DOM [dom_of s'] = DomSpec.run of the operations the model emitted:
+     - clause sk_leaves of Skeleton (children only below the document, template contents and elements), on every
+       node of the arena, for every protocol-respecting run;
+     - the bottom of the stack of open elements is an HTML `html` element node of that DOM in every mode after
+       "before html" (the element create_root appends to the document).
+   The other five clauses (document children, head/body|frameset under html, white-space-only text under html,
+   no adjacent / empty text) stay monitored by ./check C06: they need the shape of the tree, which the model's
+   invariant does not track (and the full statement is refuted by the known WHATWG-conformant class above). *)
+From HV Require Tree.TreeTypes Tree.TreeModel Tree.TreeInvDefs Tree.TreeInvMain Tree.TreeContractRun.
+
+Theorem C06_skeleton_leaves_partial :
+  forall o toks, TreeInvMain.protocol (TreeModel.init_state o) toks ->
+    match TreeModel.run_tokens (TreeModel.init_state o) toks [] with
+    | TreeModel.RunOk s' _ =>
+      forall n, kids (TreeContractRun.dom_of s') n <> [] -> is_container (data_of (TreeContractRun.dom_of s') n) = true
+    | TreeModel.RunPanic n => n = 99%N
+    | TreeModel.RunFuel => True
+    end.
+Proof. exact TreeContractRun.skeleton_leaves_partial. Qed.
+Print Assumptions C06_skeleton_leaves_partial.
+
+Theorem C06_root_is_html_element_partial :
+  forall s, TreeInvDefs.TInv s -> TreeInvDefs.early_mode (TreeTypes.mode s) = false ->
+    exists r rest n nm at_ tm ip, TreeTypes.open_elems s = r :: rest /\ resolve (TreeContractRun.dom_of s) r = Some n /\
+      data_of (TreeContractRun.dom_of s) n = Element nm at_ tm ip /\
+      q_ns nm = TreeTypes.ns_html /\ q_local nm = Skeleton.s_html.
+Proof. exact TreeContractRun.skeleton_root_and_head_partial. Qed.
+Print Assumptions C06_root_is_html_element_partial.
